@@ -118,6 +118,15 @@ func runC09(c *explore.Ctx) {
 	// points (written locations, objects seen from two threads) is computed consistently. In the
 	// thorough tier the top bound of the merge scenarios is additionally partitioned by subtree.
 	sort.SliceStable(scs, func(i, j int) bool { return scWeight(scs[i], mergeOp, writeOp) > scWeight(scs[j], mergeOp, writeOp) })
+	if c.Thorough() {
+		// thorough: everything the quick tier covers first (light scenarios), the partitioned
+		// bound-2 merge scenarios last, as far as the budget reaches
+		sort.SliceStable(scs, func(i, j int) bool {
+			hi := scWeight(scs[i], mergeOp, writeOp) >= 10 && scs[i].bound >= 2
+			hj := scWeight(scs[j], mergeOp, writeOp) >= 10 && scs[j].bound >= 2
+			return !hi && hj
+		})
+	}
 	for si, sc := range scs {
 		if c.Expired() {
 			break
